@@ -7,6 +7,7 @@ KIND_NAMES = {
     401: 'session/life: start/stop/verify commands interleaved with allocation, verification, piece-write and stop-announce results in any order and with changes to the files while stopped, vs Life.v (exact) + truthfulness monitor',
     101: 'session/leech: download path of the stepped event loop (message, write-result, snub, disconnect handlers) under scripted honest/hostile peers vs Leech.v (piece assignments validated, everything else predicted)',
     102: 'C01/piecedl: piecedownloader vs PieceDl.v',
+    103: 'C01/verifier: verifier.Run over in-memory files that may be damaged or shorter than the metainfo says, neighbouring pieces often identical, vs PieceDl.run_verifier',
     1301: 'C13/infodl: infodownloader vs InfoDl.v',
     1302: 'C13/magnet: magnet.New(String()) vs Magnet.v (render then parse)',
     1303: 'session/metadata: metadata phase of a magnet torrent in the stepped event loop (extension handshakes, ut_metadata exchange, snub/disconnect, messages before the metadata is known, replay of queued messages) vs MetaSess.v',
@@ -63,7 +64,7 @@ TRUSTED_COMMON = [
 
 PROPS = {
     'C01': {
-        'kinds': {101: {'quick': 1500, 'thorough': 40000}, 102: {'quick': 800, 'thorough': 20000}},
+        'kinds': {101: {'quick': 1500, 'thorough': 40000}, 102: {'quick': 800, 'thorough': 20000}, 103: {'quick': 3000, 'thorough': 60000}},
         'trusted': ['SHA-1: a buffer whose digest equals the recorded hash is the recorded content (collision resistance)'],
         'assumptions': [],
     },
